@@ -167,7 +167,9 @@ class Listeners:
                     yield listener.build_key(spec.attr_name), partial(callable_method, func)
                     return
 
-        yield f"{spec.attr_name}@None", partial(callable_method, spec.func)
+        # distinct callables may share a ``__name__`` (two lambdas, two closures of one factory): the key
+        # identifies the function object, so only the very same callable listed twice is deduplicated
+        yield f"{spec.attr_name}@{id(spec.func)}", partial(callable_method, spec.func)
 
     def search_name(self, name):
         for listener in self.items:
